@@ -1331,7 +1331,7 @@ class Quantity(metaclass=QuantityMeta):
             except (TypeError, ValueError):
                 try:
                     amnt = Fraction(s_amount)
-                except (TypeError, ValueError):
+                except (TypeError, ValueError, ZeroDivisionError):
                     raise QuantityError(f"Can't convert '{s_amount}' to a "
                                         "rational number.")
             if len(parts) > 1:
